@@ -81,6 +81,8 @@ static bool in_domain(int nt, ld v)
     return a == 0 || (a >= tiny_of(nt) && a <= huge_of(nt));
 }
 
+bool in_exponent_range(int nt, ld v) { return v != 0 && in_domain(nt, v); }
+
 void absorb(RunOut const& out, Report& rep)
 {
     ++rep.runs;
